@@ -5,6 +5,9 @@
   context: `overlapMemoRun` folds the memoised search (`Validate/OverlapMemo.lean`) over the typed enumeration
   `Spec.typedNodes` (node, static view inside the node), with the recursion budget `memoFuel d` that
   `Props/C06_overlap_memo.lean: overlap_memo_terminates` proves sufficient on every document.
+  (`overlapMemoRun` is the rule ALONE - all selection sets; the theorems of Props/C06_overlap_memo.lean are about it.
+  In a chain, a rule raising `SkipNode` above a selection set hides it from every member: the driver therefore runs the
+  memoised search inside the chain itself, `runM` of `Validate/ChainPar.lean`.)
   `runMemo`: the chain as modelled (`run`, UN-memoised search - the one the theorems are about); where that one
   exhausts its fuel (fragment cycles below fields: the code before the memo recursed forever), the other rules' errors
   come from the chain without the overlap rule and the overlap rule's from the memoised run; on UNRANKED documents
@@ -14,6 +17,7 @@
   not crash" on every document (standing in for the verdict-neutrality theorem, which is open).
 -/
 import PyGqlModel.Validate.Chain
+import PyGqlModel.Validate.ChainPar
 import PyGqlModel.Validate.OverlapMemo
 import PyGqlModel.Validate.OverlapRank
 import PyGqlModel.Validate.WfIds
@@ -55,35 +59,36 @@ structure MemoAnswer where
   memoOverlap : Option Nat
   memoCrash : Option String
 
-/-- the chain without the overlap rule + the memoised overlap rule -/
-def runSupplied (c : Cfg) (d : Doc) (m : Nat × OCtx) : Outcome :=
-  let ov := Rule.overlappingFieldsCanBeMerged
-  match run { c with rules := c.rules.filter (· != ov) } d, m.2.crash with
-  | .crash e', _ => .crash e'
-  | .errors _, some e' => .crash e'
-  | .errors l, none => .errors (c.rules.map fun r => if r == ov then (r, m.1) else (r, ((l.find? (·.1 == r)).map (·.2)).getD 0))
+private def overlapOf : Outcome → Option Nat
+  | .errors l => (l.find? (·.1 == Rule.overlappingFieldsCanBeMerged)).map (·.2)
+  | .crash _ => none
+private def crashOf : Outcome → Option String
+  | .crash e => some e
+  | .errors _ => none
 
+/-- The answer of the driver. `om` = the chain run with the memoised search INSIDE it (`runM`, `Validate/ChainPar.lean`:
+    same traversal and `SkipNode` handling as the chain of the theorems, so the overlap rule sees exactly the
+    selection sets it sees there - a rule raising `SkipNode` above a selection set hides it from all members).
+    Ranked documents: the chain of the theorems `run` gives the verdict (if it crashes: `om`), and the two overlap
+    counts are returned for the cross-check. Unranked documents (fragment cycles): `om` alone. -/
 def runMemo (c : Cfg) (d : Doc) : MemoAnswer :=
   let ov := Rule.overlappingFieldsCanBeMerged
-  if c.rules.contains ov && !rankOkB c.schema d (rankOf (computeRanks d)) then
-    /- UNRANKED document (fragment cycle, or nesting beyond the rank bound): outside every theorem about the un-memoised
-       search, which here runs out of fuel or - before it does - takes exponentially many steps; it is not run at all -/
-    let m := overlapMemoRun c.schema c.fixes d
-    { outcome := runSupplied c d m, supplied := true, plainCrash := some "not-run:unranked", plainOverlap := none,
-      memoOverlap := some m.1, memoCrash := m.2.crash }
-  else
-  let o1 := run c d
   if c.rules.contains ov then
-    let m := overlapMemoRun c.schema c.fixes d
-    match o1 with
-    | .errors l =>
-      { outcome := o1, supplied := false, plainCrash := none, plainOverlap := (l.find? (·.1 == ov)).map (·.2),
-        memoOverlap := some m.1, memoCrash := m.2.crash }
-    | .crash e =>
-      { outcome := runSupplied c d m, supplied := true, plainCrash := some e, plainOverlap := none,
-        memoOverlap := some m.1, memoCrash := m.2.crash }
+    let om := runM (memoFuel d) c d
+    if !rankOkB c.schema d (rankOf (computeRanks d)) then
+      { outcome := om, supplied := true, plainCrash := some "not-run:unranked", plainOverlap := none,
+        memoOverlap := overlapOf om, memoCrash := crashOf om }
+    else
+      let o1 := run c d
+      match o1 with
+      | .errors _ =>
+        { outcome := o1, supplied := false, plainCrash := none, plainOverlap := overlapOf o1,
+          memoOverlap := overlapOf om, memoCrash := crashOf om }
+      | .crash e =>
+        { outcome := om, supplied := true, plainCrash := some e, plainOverlap := none,
+          memoOverlap := overlapOf om, memoCrash := crashOf om }
   else
-    { outcome := o1, supplied := false, plainCrash := (match o1 with | .crash e => some e | _ => none), plainOverlap := none,
-      memoOverlap := none, memoCrash := none }
+    let o1 := run c d
+    { outcome := o1, supplied := false, plainCrash := crashOf o1, plainOverlap := none, memoOverlap := none, memoCrash := none }
 
 end PyGql.Validate
